@@ -603,3 +603,12 @@ func (sc *Scenario) isModuleService(name string) bool {
 	}
 	return sc.Rig.FX != nil && name == st.OraclePriceServiceName
 }
+
+// scModCapSiblings: S-MOD where the other module, told that one of its contexts was paused for lack of funds, lowers
+// the fee cap of its other contexts to 1 from inside that state callback.
+func scModCapSiblings(ps ParamSet, tmpls []Template, o AlphaOpts, depth, blocks, msgs int) *Scenario {
+	sc := scMod(ps, tmpls, o, depth, blocks, msgs)
+	sc.Name = "S-MOD(lower siblings' cap in callback)"
+	sc.Rig.ReentrantCapSiblings = true
+	return sc
+}
